@@ -236,7 +236,7 @@ def body_equal(case):
 
 def body_fault(case):
     det = case["det"]
-    beta, alt, E, lat, lon = make_batch(case)
+    beta, alt, E, lat, lon = make_batch(dict(case, sites=None))  # (the failing event is found by its unique marker)
     n = len(beta)
     pos = case["pos"] % n
     k = kernel(det)
